@@ -177,6 +177,21 @@ def shape_request(rng, o, relative, scale=20.0, kinds=None, grid=None):
             pts.append(pts[0])
         elif len(pts) >= 4 and r < 0.4:
             pts[-1] = pts[1]
+        # some control points move along one axis only; in absolute mode the axes that keep their
+        # value may then be given as None ("keep"), in relative mode they are zero offsets
+        keep = []
+        prev = o
+        for i, p in enumerate(pts):
+            k = ()
+            if rng.random() < 0.2 and p is not pts[0] or rng.random() < 0.1:
+                ax = rng.choice([0, 1])
+                q2 = list(p)
+                q2[ax] = prev[ax]
+                if tuple(q2) != tuple(prev):
+                    pts[i] = p = tuple(q2)
+                    k = (ax,)
+            keep.append(k)
+            prev = p
         if relative:
             prev = o
             targets = []
@@ -185,7 +200,10 @@ def shape_request(rng, o, relative, scale=20.0, kinds=None, grid=None):
                 targets.append(v if with_z else v[:2])
                 prev = p
         else:
-            targets = [p if with_z else p[:2] for p in pts]
+            targets = []
+            for p, k in zip(pts, keep):
+                v = tuple(None if (i in k and rng.random() < 0.7) else c for i, c in enumerate(p))
+                targets.append(v if with_z else v[:2])
         meta.update(points_abs=pts)
         return f"trace.{kind}", (targets,), {}, meta
 
